@@ -133,4 +133,15 @@ CHECKS["C14"] = dict(
     assumptions=["SUTrace called directly and UTransform(SU_vector) are not in the statement's list", "dimension 0 is not in the statement's window"],
     runs=[run("c14_asan", "c14.cpp", "asan", shards=16)],
 )
+
+CHECKS["C04"] = dict(
+    level=E,
+    rule="Probe solver with term functions injective in (node,index,time). Layer 1 (scripted RK-shaped gsl_odeiv2_step_type passed through Set_GSL_step, two consecutive Evolve calls): nx in 1..3 x nsun {2,3,6} "
+         "(thorough 2..6) x nrhos 1..3 x nscalars 0..2 x all 32 switch settings x (unit impulse at every flat state index [dense non-commuting operators] + 3 probe states [time-dependent commuting operators]); every "
+         "derivative array the library writes is compared with the dense reference -i[HI,rho]-{G,rho}+P, -g s+i at the stepper's time, term call times checked. Layer 2: rk2,rk4,rkf45,rkck,rk8pd adaptive+fixed and msadams "
+         "adaptive (11 modes) x nx x nsun x nrhos x nscalars x 32 switches x t_ini in {0,1.5} against the closed form; dense non-commuting family against e^{K tau} rho e^{K^dagger tau}; time-dependent terms with sources "
+         "against an independent RK4 reference. non-trivial = at least one term enabled; distinct by (configuration, state / stepper mode)",
+    assumptions=["linear term functions from the injective family; non-linear user terms are not explored", "scripted stepper restricted to the call shape of GSL's explicit steppers"],
+    runs=[run("c04", "c04.cpp", shards=16), run("c04_asan", "c04.cpp", "asan", args=["--reduced"], shards=4)],
+)
 NOT_APPLICABLE = {}
